@@ -75,12 +75,36 @@ def rbInsert (S : α) (nn : Node α) (t : Tree α) : Tree α :=
 
 /-! ### the deletion -/
 
+/-- one iteration of `_rb_delete_fixup` after case 1: `x` is the `dx`-child of its parent at `rq1.reverse`, `c1` says
+    whether case 1 (red sibling) was applied (then the parent is red), `k` is the rest of the loop one level up.
+    A NIL sibling, or one with two black children (case 2: sibling red), moves `x` to its parent; otherwise a black
+    far child of the sibling is first repaired by a rotation at the sibling (case 3), then the sibling takes the
+    parent's colour, the parent and the far child become black and the rotation at the parent ends the loop with
+    `x = root` (case 4). -/
+def dfB (S : α) (dx : Dir) (c1 : Bool) (rq1 : List Dir) (k : Tree α → Tree α × List Dir) (t1 : Tree α) :
+    Tree α × List Dir :=
+  let pp1 := rq1.reverse
+  let pw1 := pp1 ++ [dx.flip]
+  match subAt pw1 t1 with
+  | .nil => if c1 then (t1, rq1) else k t1
+  | .node wl _ _ _ wr =>
+    let near := match dx with | .L => wl | .R => wr
+    let far := match dx with | .L => wr | .R => wl
+    if !(isRed near) && !(isRed far) then
+      let t2 := atPath (setCol true) pw1 t1
+      if c1 then (t2, rq1) else k t2
+    else
+      let t3 := if !(isRed far) then
+          atPath (rotD S dx.flip) pw1 (atPath (setCol true) pw1 (atPath (setCol false) (pw1 ++ [dx]) t1))
+        else t1
+      let cp := isRed (subAt pp1 t3)
+      (atPath (rotD S dx) pp1 (atPath (setCol false) (pw1 ++ [dx.flip]) (atPath (setCol false) pp1
+        (atPath (setCol cp) pw1 t3))), [])
+
 /-- the loop of `_rb_delete_fixup`.  `x` sits at the path `rp` (innermost step first: `x` the `dx`-child of its
     parent at `rq.reverse`); returns the tree and the position of `x` when the loop ends.  While `x` is not the root
-    and black: a red sibling `w` is rotated above the parent (case 1); a NIL sibling, or one with two black children
-    (case 2: `w` red), moves `x` to its parent; otherwise a black far child of `w` is first repaired by a rotation at
-    `w` (case 3), then `w` takes the parent's colour, the parent and the far child become black, the rotation at the
-    parent ends the loop with `x = root` (case 4). -/
+    and black: a red sibling `w` is first rotated above the parent (case 1: sibling black, parent red, rotation at the
+    parent), then `dfB`. -/
 def delFixP (S : α) : List Dir → Tree α → Tree α × List Dir
   | [], t => (t, [])
   | dx :: rq, t =>
@@ -88,26 +112,10 @@ def delFixP (S : α) : List Dir → Tree α → Tree α × List Dir
     else
       let pp := rq.reverse
       let pw := pp ++ [dx.flip]
-      let c1 := isRed (subAt pw t)
-      let t1 := if c1 then atPath (rotD S dx) pp (atPath (setCol true) pp (atPath (setCol false) pw t)) else t
-      let rq1 := if c1 then dx :: rq else rq
-      let pp1 := rq1.reverse
-      let pw1 := pp1 ++ [dx.flip]
-      match subAt pw1 t1 with
-      | .nil => if c1 then (t1, rq1) else delFixP S rq t1
-      | .node wl _ _ _ wr =>
-        let near := match dx with | .L => wl | .R => wr
-        let far := match dx with | .L => wr | .R => wl
-        if !(isRed near) && !(isRed far) then
-          let t2 := atPath (setCol true) pw1 t1
-          if c1 then (t2, rq1) else delFixP S rq t2
-        else
-          let t3 := if !(isRed far) then
-              atPath (rotD S dx.flip) pw1 (atPath (setCol true) pw1 (atPath (setCol false) (pw1 ++ [dx]) t1))
-            else t1
-          let cp := isRed (subAt pp1 t3)
-          (atPath (rotD S dx) pp1 (atPath (setCol false) (pw1 ++ [dx.flip]) (atPath (setCol false) pp1
-            (atPath (setCol cp) pw1 t3))), [])
+      if isRed (subAt pw t) then
+        dfB S dx true (dx :: rq) (delFixP S rq)
+          (atPath (rotD S dx) pp (atPath (setCol true) pp (atPath (setCol false) pw t)))
+      else dfB S dx false rq (delFixP S rq) t
 
 /-- `_rb_delete_fixup`: the loop, then `x` is blackened -/
 def rbDelFix (S : α) (rp : List Dir) (t : Tree α) : Tree α :=
